@@ -272,7 +272,7 @@ def main():
         DS.setEnabled(bool(t[0]))
         DS.setAutonomous(bool(t[1]))
         DS.setTest(bool(t[2]))
-        DS.notifyNewData()
+        hal.simulation.notifyDriverStationNewData()   # as a DS packet arrives: only the robot loop's own refreshData() makes it current
 
     DS.setDsAttached(True)
     DS.setFmsAttached(bool(case["fms"]))
@@ -417,7 +417,7 @@ def main():
             # the FMS gets attached / detached while the loop sleeps: the control word the robot
             # refreshes when it next wakes carries the new flag.  No time passes, nothing runs.
             DS.setFmsAttached(bool(t[1]))
-            DS.notifyNewData()
+            hal.simulation.notifyDriverStationNewData()   # as a DS packet arrives: only the robot loop's own refreshData() makes it current
             marks.append(len(log))
             continue
         set_word(t)
